@@ -15,6 +15,34 @@ fn main() {
         vharness::codec::deep_child(args[2].parse().unwrap());
         return;
     }
+    if sub == "e2ecase" {
+        // vh e2ecase <case line...>: replay one case, print trace and oracle verdicts
+        let line = args[2..].join(" ");
+        let t = vharness::e2e::run_case(&line);
+        println!("{}", t);
+        for v in vharness::e2e::direct_oracle(&line, &t) {
+            println!("VIOLATION {}", v);
+        }
+        return;
+    }
+    if sub == "hostile-worker" {
+        vharness::hostile::worker_main();
+        return;
+    }
+    if sub == "hostile-decode" {
+        vharness::hostile::decode_probe(args[2].parse().unwrap());
+        return;
+    }
+    if sub == "hostile-case" {
+        // vh hostile-case '<case line>': trace and oracle verdict of one case
+        let line = args[2..].join(" ");
+        let t = vharness::hostile::run_case(&line);
+        println!("{}", t);
+        for v in vharness::hostile::direct_oracle(&line, &t) {
+            println!("VIOLATION {}", v);
+        }
+        return;
+    }
     let mut seed = 1u64;
     let mut n = 100u64;
     let mut dir = String::from("out");
@@ -47,6 +75,8 @@ fn main() {
         "rx" => vharness::rx::run(seed, n, thorough, &corpus, &dir),
         "life" => vharness::life::run(seed, n, thorough, &corpus, &dir),
         "lifem" => vharness::life::run_model(seed, n, thorough, &corpus, &dir),
+        "e2e" => vharness::e2e::run(seed, n, thorough, &corpus, &dir),
+        "hostile" => vharness::hostile::run(seed, n, thorough, &corpus, &dir),
         "sasl" => vharness::sasl::run(seed, n, thorough, &corpus, &dir),
         "saslm" => vharness::sasl::run_model(seed, n, thorough, &corpus, &dir),
         "c08" => vharness::c08::run(seed, n, thorough, &corpus, &dir),
